@@ -249,6 +249,7 @@ func Harness_C14_writeFault() {
 	ind := newIndirectIssuanceChainService(st, ca)
 	_, err := ind.BuildLogLeaf(context.Background(), chain, "t", ml, precert)
 	vAssert(err != nil, "a failed store write fails the submission")
+	vYield() // let any detached cache fill finish
 	// the store recovers; the same chain is submitted again (a retry, or another certificate of the same issuer)
 	st.failAdd = false
 	leaf, err := ind.BuildLogLeaf(context.Background(), chain, "t", ml, precert)
